@@ -40,6 +40,9 @@ type Script struct {
 	NoReferrers  bool `json:"no_referrers,omitempty"`
 	MaxPage      int  `json:"max_page,omitempty"`
 	// LocMode: LocationsForDescriptor option: "" unset | "empty" (returns no locations) | "one" | "error"
+	// RotateIDs: the backend hands out a new upload id with every writer (as a proxying backend does
+	// whose upstream registry puts state into the upload location)
+	RotateIDs bool `json:"rotate_ids,omitempty"`
 	LocMode string `json:"loc_mode,omitempty"`
 
 	Method   string            `json:"method"`
@@ -126,6 +129,45 @@ func setup() (*ocimem.Registry, error) {
 	return m, nil
 }
 
+// rotating makes every writer report a fresh id for its session: the real id followed by '#' and a
+// counter; resuming strips that suffix again.
+type rotating struct {
+	ociregistry.Interface
+	n    int
+	last string // the id reported by the writer handed out last
+}
+
+func baseID(id string) string {
+	if i := strings.LastIndex(id, "#"); i >= 0 {
+		return id[:i]
+	}
+	return id
+}
+
+type rotWriter struct {
+	ociregistry.BlobWriter
+	id string
+}
+
+func (w *rotWriter) ID() string { return w.id }
+
+func (r *rotating) wrap(w ociregistry.BlobWriter, err error) (ociregistry.BlobWriter, error) {
+	if err != nil {
+		return nil, err
+	}
+	r.n++
+	r.last = fmt.Sprintf("%s#%d", w.ID(), r.n)
+	return &rotWriter{BlobWriter: w, id: r.last}, nil
+}
+
+func (r *rotating) PushBlobChunked(ctx context.Context, repo string, chunkSize int) (ociregistry.BlobWriter, error) {
+	return r.wrap(r.Interface.PushBlobChunked(ctx, repo, chunkSize))
+}
+
+func (r *rotating) PushBlobChunkedResume(ctx context.Context, repo, id string, offset int64, chunkSize int) (ociregistry.BlobWriter, error) {
+	return r.wrap(r.Interface.PushBlobChunkedResume(ctx, repo, baseID(id), offset, chunkSize))
+}
+
 var linkRe = regexp.MustCompile(`^<[^<>]+>;\s*rel="next"$`)
 
 func run(s Script, v *vt.V) {
@@ -134,7 +176,12 @@ func run(s Script, v *vt.V) {
 		v.Failf("harness", "setup: %v", err)
 		return
 	}
-	r := rec.New(mem)
+	var inner ociregistry.Interface = mem
+	rot := &rotating{Interface: mem}
+	if s.RotateIDs {
+		inner = rot
+	}
+	r := rec.New(inner)
 	opts := &ociserver.Options{
 		OmitDigestFromTagGetResponse: s.OmitDigest, OmitLinkHeaderFromResponses: s.OmitLink,
 		DisableSinglePostUpload: s.NoSinglePost, DisableReferrersAPI: s.NoReferrers, MaxListPageSize: s.MaxPage,
@@ -360,9 +407,18 @@ func run(s Script, v *vt.V) {
 				v.Failf("bad-header", "%s: Range %q", desc, hdr.Get("Range"))
 				return
 			}
+			// the Location names the session by the id the backend's writer reports now
+			if s.RotateIDs && rot.last != "" {
+				loc := hdr.Get("Location")
+				idb, err := base64.RawURLEncoding.DecodeString(loc[strings.LastIndex(loc, "/")+1:])
+				if err != nil || string(idb) != rot.last {
+					v.Failf("stale-upload-location", "%s: Location %q names upload id %q, the backend's writer reports %q", desc, loc, idb, rot.last)
+					return
+				}
+			}
 			// the Range header reports what the registry now holds for the session
 			lc := calls[len(calls)-1]
-			if w, err := mem.PushBlobChunkedResume(context.Background(), lc.Repo, lc.ID, -1, 0); err == nil {
+			if w, err := mem.PushBlobChunkedResume(context.Background(), lc.Repo, baseID(lc.ID), -1, 0); err == nil {
 				size := w.Size()
 				w.Close()
 				want := fmt.Sprintf("0-%d", max(size-1, 0))
@@ -414,6 +470,7 @@ func genScript(t *rapid.T) Script {
 	s.OmitDigest, s.OmitLink = rapid.Bool().Draw(t, "omitDigest"), rapid.Bool().Draw(t, "omitLink")
 	s.NoSinglePost, s.NoReferrers = rapid.IntRange(0, 3).Draw(t, "noSinglePost") == 0, rapid.IntRange(0, 5).Draw(t, "noReferrers") == 0
 	s.MaxPage = rapid.SampledFrom([]int{0, 0, 1, 2, 1000}).Draw(t, "maxPage")
+	s.RotateIDs = rapid.IntRange(0, 3).Draw(t, "rotateIDs") == 0
 	s.LocMode = rapid.SampledFrom([]string{"", "", "", "empty", "one", "error"}).Draw(t, "locMode")
 	s.Method = rapid.SampledFrom([]string{"GET", "GET", "GET", "HEAD", "PUT", "POST", "PATCH", "DELETE", "OPTIONS", "", "get", "CONNECT", "G E T"}).Draw(t, "method")
 	repo := func() string {
@@ -454,7 +511,7 @@ func genScript(t *rapid.T) Script {
 		case 0, 1, 2:
 			return base64.RawURLEncoding.EncodeToString([]byte(uploadID))
 		case 3:
-			return base64.RawURLEncoding.EncodeToString([]byte(rapid.SampledFrom([]string{"other", "", "a/b", "id with space", "\xff\xfe"}).Draw(t, "rawID")))
+			return base64.RawURLEncoding.EncodeToString([]byte(rapid.SampledFrom([]string{"other", "", "a/b", "id with space", "\xff\xfe", "ab?", "ab>", "~~~???>>>", "\xfb\xef\xbe", "https://up.test/x?state=a+b/c"}).Draw(t, "rawID")))
 		case 4:
 			return rapid.SampledFrom([]string{"!!!", "====", "a", "YQ=="}).Draw(t, "badB64")
 		}
@@ -560,7 +617,7 @@ func genScript(t *rapid.T) Script {
 var prop = &vt.Prop[Script]{
 	ID:   "C06",
 	Name: "ServeAnyRequest",
-	Rule: "requests built by hand (so that unparseable paths are reachable) and served in-process by ociserver over a recording, close-tracking wrapper of a pre-populated ocimem (3 repositories incl. a/blobs/uploads, blobs, image + index manifests with subject, tags, an upload in progress) under every Options combination: method in {GET,HEAD,PUT,POST,PATCH,DELETE,OPTIONS,'',lower case,garbage}; path = one of 8 endpoint templates with slots from known / valid (routing words, 255-1000 byte names) / hostile names, digests, tags and upload ids, then mutated (segment dropped / duplicated / emptied, trailing slash, double slash, other prefix); query n,last,digest,mount,from each absent / empty / valid / malformed / repeated, raw malformed queries; Range, Content-Range, Content-Type headers from valid and boundary values (0-0, 5-4, 1-0, MaxInt64, negative, non-numeric, lone '-' and ',' forms, generated strings over the range alphabet); bodies (empty, 1 byte, blob, valid image / index manifests, truncated JSON) with matching, unknown (-1) and mismatching Content-Length; oracle = no panic; status >= 400 => OCI JSON error document whose status equals the specification's for its code; 2xx => the endpoint's mandated headers (Location, Docker-Content-Digest, Range, Content-Range consistent with the body, Content-Length == body); no backend call with a repository, tag or digest that an independent reference reading of the grammars rejects; every reader and writer obtained from the backend closed; non-trivial = the request reached a handler or was rejected for a reason other than a foreign path; distinct = (method, template, mutation, status, header set, query)",
+	Rule: "requests built by hand (so that unparseable paths are reachable) and served in-process by ociserver over a recording, close-tracking wrapper of a pre-populated ocimem (3 repositories incl. a/blobs/uploads, blobs, image + index manifests with subject, tags, an upload in progress) under every Options combination, a quarter of the time with a backend that rotates upload ids: method in {GET,HEAD,PUT,POST,PATCH,DELETE,OPTIONS,'',lower case,garbage}; path = one of 8 endpoint templates with slots from known / valid (routing words, 255-1000 byte names) / hostile names, digests, tags and upload ids (incl. ids whose base64 form needs the URL-safe alphabet), then mutated (segment dropped / duplicated / emptied, trailing slash, double slash, other prefix); query n,last,digest,mount,from each absent / empty / valid / malformed / repeated, raw malformed queries; Range, Content-Range, Content-Type headers from valid and boundary values (0-0, 5-4, 1-0, MaxInt64, negative, non-numeric, lone '-' and ',' forms, generated strings over the range alphabet); bodies (empty, 1 byte, blob, valid image / index manifests, truncated JSON) with matching, unknown (-1) and mismatching Content-Length; oracle = no panic; status >= 400 => OCI JSON error document whose status equals the specification's for its code; 2xx => the endpoint's mandated headers (Location - for uploads naming the id the backend's writer reports now -, Docker-Content-Digest, Range, Content-Range consistent with the body, Content-Length == body); no backend call with a repository, tag or digest that an independent reference reading of the grammars rejects; every reader and writer obtained from the backend closed; non-trivial = the request reached a handler or was rejected for a reason other than a foreign path; distinct = (method, template, mutation, status, header set, query)",
 	Gen:  genScript,
 	Run:  run,
 }
